@@ -89,10 +89,17 @@ def run(tier, seed):
         if defect > 1e-8:
             bad.append(dict(failed="reversing the momenta (and conjugating rho) and propagating the same number of steps returns to the initial state (defect %.3e)" % defect,
                             case=dict(model=mname, x0=x0, p0=p0, steps=nst, dt=dt)))
-    for e in e2:
+    # ---- whole runs of AdiabaticMD on harmonic surfaces through the assembled loop Model/MD.md_harm_run (no oracle data)
+    import pmd
+    mdc, mdmeta = pmd.collect(res, rng, 20 if tier == "quick" else 400, bad)
+    f5, e5 = run_case_check("C07md", pmd.PRELUDE_M, "caseM", "chkM", mdc, per_file=100)
+    for e in e2 + e5:
         res.violation("model evaluation failed (coqc)", dict(kind="coqc-error", log=e, no_failing_input_found=True))
-    res.traces_validated = len(vc) - len(f2)
+    res.traces_validated = len(vc) - len(f2) + len(mdc) - len(f5)
     corr = [vmeta[i] for i in f2[:3]]
+    if f5 and not bad and not corr:
+        res.violation("the loop of AdiabaticMD.simulate differs from Model/MD.md_run (Run/RMD.chkM): C07_md_run_reversible no longer covers the code",
+                      dict(kind="correspondence", correspondence="Run/RMD.chkM: Model/MD.md_harm_run vs AdiabaticMD.simulate on HarmonicModel", failing_inputs=[mdmeta[i] for i in f5[:4]], no_failing_input_found=True))
     if bad:
         res.violation("implementation violates: " + bad[0]["failed"], dict(kind="oracle", failing_inputs=bad[:4], correspondence_failures=[{k: c[k] for k in ("cls", "dt")} for c in corr]))
     elif corr:
